@@ -105,11 +105,13 @@ class Ctx:
             self.timeouts += 1
             self.inconclusive["watchdog@" + str(getattr(self, "stratum", "-"))] += 1
             STATE.depth = 0
+            STATE.nest = 0
             return False, None
         except Exception as e:  # harness bug or an exception the check did not anticipate: inconclusive
             import traceback
 
             STATE.depth = 0
+            STATE.nest = 0
             self.inconclusive["harness-exception"] += 1
             self.extra.setdefault("harness_exceptions", [])
             if len(self.extra["harness_exceptions"]) < 3:
